@@ -1149,25 +1149,36 @@ var (
 //   - wrap:   an access whose end offset+len is exactly 2^32 on a 65536-page memory.
 func probes() {
 	probeOnce.Do(func() {
-		probeMemLen = Case{Cfg: Config{Engine: "compiler", Min: 65536, Max: -1, Limit: -1, Alloc: "mmap"},
-			Ops: []Op{{K: "gsize"}, {K: "gload", W: "8", Off: 0}, {K: "gstore", W: "32", Off: 16, V: 0x11223344}}}
-		if f, _, _ := runCase(probeMemLen); f != nil {
-			hasMemLen32 = true
-			if evid.Finding(findMemLen, "known-memlen", probeMemLen, "%s", f.msg) {
+		// Only "specific input fails and the control input (same operations one page below the
+		// 4 GiB end) passes" is attributed to the finding; otherwise it is an ordinary violation.
+		attribute := func(id, check string, c, control Case) bool {
+			f, _, _ := runCase(c)
+			if f == nil {
+				return false
+			}
+			if fc, _, _ := runCase(control); fc != nil {
+				evid.Violation(check+"-control", control, "%s", fc.msg)
+				probeViolations = append(probeViolations, fc.msg)
+				return false
+			}
+			if evid.Finding(id, check, c, "%s", f.msg) {
 				probeViolations = append(probeViolations, f.msg)
 			}
+			return true
 		}
-		probeWrap = Case{Cfg: Config{Engine: "interpreter", Min: 65536, Max: -1, Limit: -1, Alloc: "mmap"},
-			Ops: []Op{{K: "hwrite", W: "64", Off: 0xfffffff8, V: 0x8877665544332211},
-				{K: "gload", W: "32", Off: 0xfffffffc}, {K: "gload", W: "64", Off: 0xfffffff8}, {K: "gload", W: "16", Off: 0xfffffffe},
-				{K: "hread", W: "32", Off: 0xfffffffc}, {K: "hread", W: "f32", Off: 0xfffffffc}, {K: "hread", W: "64", Off: 0xfffffff8},
-				{K: "hread", W: "f64", Off: 0xfffffff8}, {K: "hread", W: "16", Off: 0xfffffffe}, {K: "hread", W: "bytes", Off: 0xfffffff0, N: 16}}}
-		if f, _, _ := runCase(probeWrap); f != nil {
-			hasWrap = true
-			if evid.Finding(findWrap, "known-wrap", probeWrap, "%s", f.msg) {
-				probeViolations = append(probeViolations, f.msg)
-			}
+		ops := []Op{{K: "gsize"}, {K: "gload", W: "8", Off: 0}, {K: "gstore", W: "32", Off: 16, V: 0x11223344}}
+		probeMemLen = Case{Cfg: Config{Engine: "compiler", Min: 65536, Max: -1, Limit: -1, Alloc: "mmap"}, Ops: ops}
+		hasMemLen32 = attribute(findMemLen, "known-memlen", probeMemLen,
+			Case{Cfg: Config{Engine: "compiler", Min: 65535, Max: -1, Limit: -1, Alloc: "mmap"}, Ops: ops})
+		wrapOps := func(end uint32) []Op { // end = address of the last byte
+			return []Op{{K: "hwrite", W: "64", Off: end - 7, V: 0x8877665544332211},
+				{K: "gload", W: "32", Off: end - 3}, {K: "gload", W: "64", Off: end - 7}, {K: "gload", W: "16", Off: end - 1},
+				{K: "hread", W: "32", Off: end - 3}, {K: "hread", W: "f32", Off: end - 3}, {K: "hread", W: "64", Off: end - 7},
+				{K: "hread", W: "f64", Off: end - 7}, {K: "hread", W: "16", Off: end - 1}, {K: "hread", W: "bytes", Off: end - 15, N: 16}}
 		}
+		probeWrap = Case{Cfg: Config{Engine: "interpreter", Min: 65536, Max: -1, Limit: -1, Alloc: "mmap"}, Ops: wrapOps(0xffffffff)}
+		hasWrap = attribute(findWrap, "known-wrap", probeWrap,
+			Case{Cfg: Config{Engine: "interpreter", Min: 65535, Max: -1, Limit: -1, Alloc: "mmap"}, Ops: wrapOps(0xfffeffff)})
 		debug.FreeOSMemory()
 	})
 }
